@@ -34,9 +34,18 @@ Proof.
     specialize (IH rest Hr). destruct (MO.parse_nh rest); [exact I | exact IH].
 Qed.
 
+Lemma parse_pl_n20 : forall n d, (length d <= n)%nat -> res_n20 (MO.parse_pl d).
+Proof.
+  induction n as [|n IH]; intros d Hl.
+  - destruct d; [exact I | cbn [length] in Hl; lia].
+  - destruct d as [|a1 [|a2 [|s [|l1 [|l2 rest]]]]]; cbn [MO.parse_pl]; try exact I; try (split; reflexivity).
+    assert (Hr : (length rest <= n)%nat) by (cbn [length] in Hl; lia).
+    specialize (IH rest Hr). destruct (MO.parse_pl rest); [exact I | exact IH].
+Qed.
+
 Lemma parse_cap_n20 (c : Z) (d : bytes) : res_n20 (MO.parse_cap c d).
 Proof.
-  unfold MO.parse_cap, MO.n20.
+  unfold MO.parse_cap, MO.n20. cbv zeta.
   repeat match goal with
          | |- context [if ?x then _ else _] => destruct x
          end;
@@ -45,6 +54,8 @@ Proof.
              let H := fresh in pose proof (parse_ap_n20 (length x) x (le_n _)) as H; destruct (MO.parse_ap x)
          | |- context [match MO.parse_nh ?x with _ => _ end] =>
              let H := fresh in pose proof (parse_nh_n20 (length x) x (le_n _)) as H; destruct (MO.parse_nh x)
+         | |- context [match MO.parse_pl ?x with _ => _ end] =>
+             let H := fresh in pose proof (parse_pl_n20 (length x) x (le_n _)) as H; destruct (MO.parse_pl x)
          | |- context [match ?x with [] => _ | _ :: _ => _ end] => destruct x
          | |- context [if ?x then _ else _] => destruct x
          end;
